@@ -125,7 +125,10 @@ impl<'a> CodeBody<'a> {
             if let Some(a) = b.completion_value.take() {
                 b.terminator = Some(Terminator::Return(a));
             } else {
-                b.terminator = if reachable[i] {
+                // Non-empty block can also be entered by "br" which will never be turned into
+                // "return": e.g. the block where branches of ternary expression are joined.
+                let entered_by_br = !b.statements.is_empty() && !incoming_map[i].is_empty();
+                b.terminator = if reachable[i] || entered_by_br {
                     let end = byte_range.end; // implicit return should be at end
                     Some(Terminator::Return(Operand::Void(Void::new(end..end))))
                 } else {
